@@ -276,11 +276,15 @@ void ClockDevice::doLoop(int opIndex, Verdict& v, Coverage& cov) {
       cov.count(kindBefore == RefPlan::LOST ? "fault.ref_lost" : "fault.ref_late");
       sawFail = true;
       sync.fail(now);
-    } else if (readyBefore && late) {
+    } else if (readyBefore && late && readyAtBefore >= sync.start + (int64_t)cfg.tmo) {
+      // rule 4: the answer became ready only at/after the time-out instant and this is the first
+      // call to see either: applying it and giving up are both accepted
       cov.count("fault.ref_race_timeout");
       sawFail = true;
       sync.fail(now);
     } else if (readyBefore) {
+      // the answer arrived in time (possibly seen late because loop() was called late): it is a
+      // valid, not-late response and must be consumed
       sync.unread++;
       if (sync.unread > 2) {
         v.fail("c14-unread", fmt("t=%lld ms: a response has been ready (in time) for %d loop() calls "
@@ -400,6 +404,37 @@ bool ClockDevice::exec(const std::vector<std::string>& toks, int opIndex, Verdic
 
 void ClockDevice::finish(Coverage& cov) {
   if (opts.armC13 && keep.everStalled) cov.count("runs_with_stall");
+}
+
+// ---------------------------------------------------------------------------
+// Exhaustive sweep: every start phase m0 mod 65536 in [from, from+count) x every poll gap
+// 1..64536 ms, for two counter bases (no 32-bit wrap / wrap inside the gap). One set, one gap,
+// one reading: T + floor(g/1000). Prints the first disagreement as an ordinary trace.
+int sweepClockKeep(uint32_t phaseFrom, uint32_t phaseCount) {
+  ace_time::testing::FakeMillis fm;
+  static const uint64_t bases[2] = { 0x00000000ULL, 0xFFFF0000ULL };
+  const acetime_t T = 600000000;
+  unsigned long long pairs = 0;
+  for (int b = 0; b < 2; b++) {
+    for (uint32_t p = phaseFrom; p < phaseFrom + phaseCount && p < 65536; p++) {
+      for (uint32_t g = 1; g <= 64536; g++) {
+        ace_time::testing::TestableSystemClockLoop clk(nullptr, nullptr, &fm);
+        uint64_t m0 = bases[b] + p;
+        fm.millis((unsigned long)(uint32_t)m0);
+        clk.setNow(T);
+        fm.millis((unsigned long)(uint32_t)(m0 + g));
+        acetime_t r = clk.getNow();
+        pairs++;
+        if (r != (acetime_t)(T + g / 1000)) {
+          printf("SWEEPVIOL boot=%llu gap=%u got=%ld want=%ld\n", (unsigned long long)m0, g, (long)r, (long)(T + g / 1000));
+          printf("SWEEP pairs=%llu\n", pairs);
+          return 1;
+        }
+      }
+    }
+  }
+  printf("SWEEP pairs=%llu\n", pairs);
+  return 0;
 }
 
 // ---------------------------------------------------------------------------
